@@ -60,10 +60,24 @@ class RibCtx(BaseCtx):
         if self.done or w.exited or w.ops_done + w.ops_skipped >= cfg["max_ops"]:
             return None
         live = w.live_conns()
+        st = w.state()
+        if st != "ESTABLISHED":
+            self.est_ops = 0
+        else:
+            self.est_ops = getattr(self, "est_ops", 0) + 1
         for k, c in enumerate(live):
             if c.closing():
+                if cfg.get("late_close") and not (st == "ESTABLISHED" and self.est_ops > cfg["late_close"]):
+                    # the peer is slow to take our close: connectionLost of this connection is delivered
+                    # only when the next session is up and has routes
+                    if st in ("IDLE", "CONNECT") and not w.reactor.due() and not any(x.state == "connecting" for x in live):
+                        return ["cdone", k]      # (the agent waits for the close: nothing else can happen)
+                    continue
+                if st == "ESTABLISHED":
+                    self.stats["gen:late_close_during_next_session"] += 1
                 return ["cdone", k]
-        st = w.state()
+        if st == "ESTABLISHED" and cfg.get("p_hfail") and w.handler_fail_in is None and rng.chance(cfg["p_hfail"]):
+            return ["hfail", rng.randrange(1, 3)]
         if st in ("IDLE", "CONNECT"):
             for k, c in enumerate(live):
                 if c.state == "connecting":
@@ -134,7 +148,15 @@ class RibCtx(BaseCtx):
         if rng.chance(0.25):
             dirty = rng.pick([0xFF, 0x55, 0x01])      # padding bits of the prefixes are not zero
             self.stats["gen:prefixes_with_nonzero_padding"] += 1
-        return rp.encode_update(wd, attrs, nl, as4=self.as4, dirty=dirty)
+        raw = None
+        if attrs and rng.chance(0.3):
+            # the same attributes in another order on the wire (RFC 4271 asks the sender for ascending type
+            # order with SHOULD only; the receiver takes any order)
+            tlvs = rp.decode_attr_list(rp.encode_attrs(attrs, self.as4))
+            rng.shuffle(tlvs)
+            raw = b"".join(rp.attr_tlv(fl, code, val) for fl, code, val in tlvs)
+            self.stats["gen:attributes_in_unusual_order"] += 1
+        return rp.encode_update(wd, attrs, nl, as4=self.as4, dirty=dirty, raw_attrs=raw)
 
     def base_attr_bytes(self):
         return rp.encode_attrs({"origin": 0, "as_path": [(2, [self.cfg["remote_as"]])]}, self.as4)
@@ -234,6 +256,8 @@ class RibCtx(BaseCtx):
         ran = w.apply(op)
         if not ran:
             return
+        if op[0] == "hfail":
+            self.stats["op:hfail"] += 1
         toks, escapes, handler = self.observe(pos)
         self.check_escapes(escapes, "rib")
         if self.done:
@@ -470,8 +494,8 @@ class RibProfile(BaseProfile):
             "sets, 3 flowspec rules x 3 actions, 3 VPNv4 routes x 2 route targets (announce, withdraw, re-announce same/different "
             "attributes, several routes per message, withdraw of absent routes), REST send/update for the sent side (IPv4, "
             "flowspec, VPNv4), adj-rib-in/out queries, session drops (close, reset, NOTIFICATION, operator stop) and "
-            "re-establishment; non-trivial = reached Established; distinct = distinct (op, state) sequence")
-    probes = ["gen:duplicate_withdrawn_prefix", "gen:prefixes_with_nonzero_padding", "gen:rest_announce_without_local_pref", "gen:mixed_mp_and_ipv4_updates", "rx_ipv4_updates", "rx_flowspec_updates", "rx_mpls_vpn_updates", "tx_ipv4_updates", "tx_flowspec_updates",
+            "re-establishment; 30 % of the announcements carry their attributes in a shuffled wire order; 25 % of the runs hold back the completion of the agent's own closes until the next session has routes, 25 % let the application handler raise ENOSPC at message callbacks; non-trivial = reached Established; distinct = distinct (op, state) sequence")
+    probes = ["op:hfail", "gen:late_close_during_next_session", "gen:attributes_in_unusual_order", "gen:duplicate_withdrawn_prefix", "gen:prefixes_with_nonzero_padding", "gen:rest_announce_without_local_pref", "gen:mixed_mp_and_ipv4_updates", "rx_ipv4_updates", "rx_flowspec_updates", "rx_mpls_vpn_updates", "tx_ipv4_updates", "tx_flowspec_updates",
               "tx_mpls_vpn_updates", "session_drops", "withdraw_of_absent_route", "reannounce_same_attrs",
               "reannounce_changed_attrs", "rib_queries", "version_should_increase:rx:flowspec",
               "version_should_increase:rx:mpls_vpn", "version_should_increase:tx:flowspec"]
@@ -487,6 +511,8 @@ class RibProfile(BaseProfile):
         if rng.chance(0.3):
             cfg["four_bytes_as"] = False
         cfg["max_ops"] = rng.pick([20, 40, 80])
+        cfg["late_close"] = rng.pick([2, 4, 8]) if rng.chance(0.25) else None
+        cfg["p_hfail"] = rng.pick([0.03, 0.1]) if rng.chance(0.25) else None
         caps = [rp.cap_mp(1, 1), rp.cap_mp(1, 133), rp.cap_mp(1, 128), rp.cap_rr()]
         if rng.chance(0.7):
             caps.append(rp.cap_as4(cfg["remote_as"]))
